@@ -96,6 +96,46 @@ PROPS = {
     },
 }
 
+def arith_entry(rule, nontrivial, modes=None, **kw):
+    d = {"bin": "arith", "modes": modes or {"quick": ["debug"], "thorough": ["debug", "release"]}, "prims": True,
+         "rule": rule, "nontrivial": nontrivial, "mc": {"quick": [], "thorough": []}}
+    d.update(kw)
+    return d
+
+
+def multi_digit(e, idx=1):
+    """the idx-th integer operand needs more than one u64 digit... bookkeeping: significant bytes > 1"""
+    ints = [a for a in e["a"] if a["t"] == "i"]
+    if len(ints) <= idx:
+        return False
+    x = abs(to_int(ints[idx]))
+    return x >= 256
+
+
+PROPS["C02"] = arith_entry(
+    "one case = (operation, width, signedness, operand tuple) with all forms, on every digit type of the width; operands: sign corners, "
+    "(2^k+d1)*(2^(W-k)+d2) and a*(LIMIT div a [+1]) products at/just below/just above 2^W and 2^(W-1) with all sign combinations, "
+    "single-digit operands placed so that only the index test or the last carry overflows, extreme-digit and random draws; "
+    "non-trivial = both operands have magnitude >= 2 and some form reports overflow, or both operands exceed one byte",
+    lambda e: (any_flag(e) and all(abs(to_int(a)) >= 2 for a in e["a"] if a["t"] == "i")) or (multi_digit(e, 0) and multi_digit(e, 1)))
+PROPS["C03"] = arith_entry(
+    "one case = (operation, width, signedness, dividend, divisor) with all forms, on every digit type of the width; operands: zero divisors, MIN/-1, MIN/1, "
+    "extreme-digit dividends with extreme-digit divisors shorter by 0..N-1 bytes (quotient-digit correction and add-back become common at every digit size), "
+    "dividends whose digit above the divisor's length equals the divisor's top digit, exact multiples q*d and q*d+-1 with all signs, small divisors, random draws; "
+    "non-trivial = divisor magnitude needs more than one byte and is not larger than the dividend's magnitude, or a zero divisor / MIN,-1 case",
+    lambda e: (multi_digit(e, 1) and abs(to_int(e["a"][0])) >= abs(to_int(e["a"][1]))) or to_int(e["a"][1]) == 0 or any_flag(e))
+PROPS["C08"] = arith_entry(
+    "one case = (pow|ilog|ilog2|ilog10, width, signedness, operands) with all forms, on every digit type; pow: bases {0,+-1,+-2,+-3,10,MIN,MAX,+-2^j,2^(W/2)+-1}, "
+    "exponents {0..3, W-1, W, W+1}, (+-2^j)^e with j*e at W-1 / W, huge exponents up to 2^32-1, random small bases; logs: x in {b^k-1, b^k, b^k+1} for "
+    "b in {2,3,7,10,2^(W/2)+-1,MAX,...}, non-positive arguments, bases < 2; non-trivial = result is neither 0/1 nor a trivially overflowing case: "
+    "|base| >= 2 and exponent >= 2 for pow, argument >= base^2 for logs, or an error case",
+    lambda e: (e["op"] == "pow" and abs(to_int(e["a"][0])) >= 2 and to_int(e["a"][1]) >= 2) or (e["op"] != "pow" and (any_flag(e) or abs(to_int(e["a"][0])) >= 100)))
+PROPS["C04"] = arith_entry(
+    "the add/sub/neg/abs, mul, div/rem, pow/ilog families plus << and >> with each of the 12 primitive right-hand-side types (amounts negative, >= BITS, > u32::MAX) and "
+    "next_power_of_two, recorded in BOTH build modes (debug assertions on and off) on every digit type; the specification takes the build mode as a parameter; "
+    "non-trivial = some form panics, reports overflow, or the two modes are specified to differ",
+    any_flag, modes={"quick": ["debug", "release"], "thorough": ["debug", "release"]})
+
 KNOWN_PREDICATES = {}
 
 
